@@ -83,7 +83,18 @@ def collect(prog):
             t.lean = gmpxx.emit_def(t)
             out.append(t)
         except Untranslatable as e:
-            bad.append(dict(name=f.name, type=f.qual, file=os.path.basename(f.file), line=f.line, reason=str(e), cls=f.cls))
+            rec = dict(name=f.name, type=f.qual, file=os.path.basename(f.file), line=f.line, reason=str(e), cls=f.cls)
+            bad.append(rec)
+            try:
+                # body outside the dialect: no model, no theorem -- but keep specification and harness stub (implementation vs spec)
+                t = gmpxx.translate_function(prog, f, sig_only=True)
+                t.base = base_name(f)
+                t.lean = None
+                t.untranslatable = str(e)
+                rec["key"] = t.key
+                out.append(t)
+            except Untranslatable:
+                pass
     # unique keys
     keys = {}
     for t in out:
@@ -91,7 +102,8 @@ def collect(prog):
         if k in keys:
             keys[k] += 1
             t.key = "%s_v%d" % (k, keys[k])
-            t.lean = gmpxx.emit_def(t)
+            if t.lean is not None:
+                t.lean = gmpxx.emit_def(t)
         else:
             keys[k] = 1
     return out, bad
@@ -262,6 +274,9 @@ def emit_set(ts, bad, prefix, entry_fn, outdir_lean, gendir, nchunk, what):
                  "import GivaroModel.Prim.Gmp\nset_option maxRecDepth 4000\nset_option linter.unusedVariables false\nnamespace Givaro.Gen\nopen Givaro\n\n" % what)
         for t in ts:
             f = t.f
+            if t.lean is None:
+                fh.write("-- UNTRANSLATABLE `%s %s` (%s:%s): %s\n\n" % (f.name, f.qual, os.path.basename(f.file), f.line, t.untranslatable))
+                continue
             fh.write("/-- `%s %s`  (%s:%s)%s -/\n" % (f.name, f.qual, os.path.basename(f.file), f.line,
                                                      ("  alias pattern %s" % t.alias) if t.alias else ""))
             fh.write(t.lean + "\n\n")
@@ -291,7 +306,8 @@ def emit_set(ts, bad, prefix, entry_fn, outdir_lean, gendir, nchunk, what):
             rec = dict(key=t.key, name=t.f.name, type=t.f.qual, file=os.path.basename(t.f.file), line=t.f.line, cls=t.f.cls,
                        params=[(n, c, ct) for n, c, ct in t.uparams], nouts=len(t.outs), ret=list(t.ret),
                        access=t.f.access, spec=None, leaves=gmpxx.tree_stats(t.tree)[0], alias=t.alias,
-                       base_key=getattr(t, "base_key", t.key))
+                       base_key=getattr(t, "base_key", t.key), translated=t.lean is not None,
+                       untranslatable=getattr(t, "untranslatable", None))
             if sp is not None and callable_from_harness(t):
                 specs[t.key] = sp
                 exact = sp["ret"] is not None and all(o is not None for o in sp["outs"]) and sp["cmp"] == "exact"
@@ -303,6 +319,10 @@ def emit_set(ts, bad, prefix, entry_fn, outdir_lean, gendir, nchunk, what):
                     fs.write("def %s_chk %s(rr_ : Res) : Bool := decide (rr_ = %s_spec %s)\n\n" % (t.key, binder, t.key, args))
                 else:
                     fs.write("def %s_chk %s(rr_ : Res) : Bool := %s\n\n" % (t.key, binder, lean_chk(t, sp)))
+                rec["spec"] = dict(fam=sp["fam"], prop=sp["prop"], pre=[list(p) for p in sp["pre"]], exact=exact, cmp=sp["cmp"])
+                if t.lean is None:
+                    meta["functions"].append(rec)
+                    continue       # no model: no theorem can be stated -- the check reports the broken obligation
                 ft.next(t.key)
                 hyps = ["(h_%s : In%s %s)" % (n, ct, n) for n, c, ct in t.uparams if ct != "Integer"] + \
                        ["(hp%d : %s)" % (i, p) for i, p in enumerate(pre_l)]
@@ -346,6 +366,9 @@ def emit_set(ts, bad, prefix, entry_fn, outdir_lean, gendir, nchunk, what):
             al = " ".join("a[%d]!" % i for i in range(n))
             mode = specs[t.key]["cmp"]
             mode = {"bezout": "cert", "bezout2": "cert", "invmod": "cert"}.get(mode, mode)
+            if t.lean is None:
+                fd.write('  | "%s" => if a.size = %d then some (%s_pre %s, Res.thrown, %s_chk %s, "speconly") else none\n' % (t.key, n, t.key, al, t.key, al))
+                continue
             fd.write('  | "%s" => if a.size = %d then some (%s_pre %s, %s %s, %s_chk %s, "%s") else none\n' % (t.key, n, t.key, al, t.key, al, t.key, al, mode))
         fd.write("  | _ => none\n\nend Givaro.Gen\n")
 
